@@ -23,7 +23,8 @@ VARIABLES l,      \* cursor into Trace
 Trace == ndJsonDeserialize("trace.ndjson")
 
 tvars == <<l, obs, bad, drift, lead, sid>>
-NoObs == [e |-> [a |-> "none", n |-> 0], pre |-> NoRef]
+NoAux == [ok |-> FALSE, b |-> 0, e |-> 0, why |-> ""]
+NoObs == [e |-> [a |-> "none", n |-> 0], pre |-> NoRef, aux |-> NoAux]
 
 Ev      == Trace[l]
 IsEv(a) == l <= Len(Trace) /\ Trace[l].a = a
@@ -46,13 +47,15 @@ ReadOK(g, r, level) ==
   ELSE g.res = "hit" /\ g.ver > 0 /\ g.val = r.val /\ g.flag = r.flag /\ (level = 3 \/ g.ver = r.ver)
 
 LevelOf(k) == IF Colliding(k) THEN 3 ELSE 1
+\* F7: a superseded TOMBSTONE of a key that is absent from the tree, kept by a pass with begin > 0
+TombTag(x) == IF x.r.ver < 0 /\ tree[HashOf(x.r.k)] = NoSlot /\ gc.begin > 0 THEN "!F7" ELSE ""
 \* known-finding tag: the failing key went through the mechanism of a listed finding
 KfTag(k) == IF k \in DOMAIN gh.kf THEN "!" \o gh.kf[k] ELSE ""
 
 Checks(o) ==
   LET e == o.e IN
   IF e.a = "Get" THEN
-       (IF ReadOK(e, ref[e.k], LevelOf(e.k)) THEN {} ELSE {<<sid, e.n, (IF Colliding(e.k) THEN "C13_Get" ELSE "C01_Get") \o KfTag(e.k)>>})
+       (IF ReadOK(e, ref[e.k], LevelOf(e.k)) THEN {} ELSE {<<sid, e.n, (IF Colliding(e.k) THEN "C13_Get" ELSE IF e.aftergc THEN "C03_Get" ELSE IF e.afteropen THEN "C02_Get" ELSE "C01_Get") \o KfTag(e.k)>>})
   ELSE IF e.a = "Set" /\ ~Colliding(e.k) THEN
        LET want == IF e.rev < 0 /\ o.pre.ver <= 0 THEN "NOT_FOUND" ELSE "ok" IN
        (IF e.res = want THEN {} ELSE {<<sid, e.n, "C01_SetStatus">>})
@@ -61,8 +64,35 @@ Checks(o) ==
            num == live /\ o.pre.flag = FlagIncr /\ o.pre.val >= NumBase
            want == IF ~live THEN e.d ELSE IF num THEN o.pre.val - NumBase + e.d ELSE 0 IN
        (IF e.res = want THEN {} ELSE {<<sid, e.n, "C01_Incr">>})
+  ELSE IF e.a = "GC" THEN
+       \* C17 range clause: the range the code resolved (or its refusal) equals RangeOf
+       (IF e.second \/ ~e.agesure \/ ((e.res = "ok") = o.aux.ok /\ (e.res = "ok" => (e.rb = o.aux.b /\ e.re = o.aux.e))) THEN {}
+        ELSE {<<sid, e.n, "C17_Range">>})
+       \cup
+       \* C17 frame clause: a file outside [rb,re] keeps its old bytes; at most one of them, below rb,
+       \* may have grown; nothing at or above the head is touched; files are created only below rb or in range
+       (LET F == {e.frame[i] : i \in 1..Len(e.frame)}
+            out == {f \in F : f.c < e.rb \/ f.c > e.re}
+            grown == {f \in out : f.after > f.before}
+        IN IF e.res # "ok" \/ e.second THEN {}
+           ELSE IF /\ \A f \in out : f.same /\ f.after >= f.before
+                   /\ Cardinality(grown) <= 1 /\ (\A f \in grown : f.c < e.rb)
+                   /\ (\A f \in F : f.c >= e.head => (f.same /\ f.after = f.before))
+                   /\ (\A i \in 1..Len(e.created) : e.created[i] < e.head /\ e.created[i] <= e.re)
+                THEN {} ELSE {<<sid, e.n, "C17_Frame">>})
+       \cup
+       (IF e.second /\ e.released # 0 THEN {<<sid, e.n, "C18_Idempotent">>} ELSE {})
+  ELSE IF e.a = "Scan" THEN
+       \* C18: every record that survives in the collected range is the newest RECORD of its key, once
+       LET X == UNION {{[c |-> e.files[i].c, r |-> e.files[i].recs[j]] : j \in 1..Len(e.files[i].recs)} :
+                        i \in {i \in 1..Len(e.files) : e.files[i].c >= e.rb /\ e.files[i].c <= e.re}}
+           Y == {x \in X : x.r.k \in Keys /\ ~Colliding(x.r.k)}
+           cur(k) == MaxOf({i \in 1..Len(recs) : recs[i].key = k}, 0)
+           isCur(x) == LET i == cur(x.r.k) IN i > 0 /\ recs[i].ver = x.r.ver /\ (x.r.ver > 0 => recs[i].val = x.r.val)
+       IN (IF \A x \in Y : isCur(x) THEN {} ELSE {<<sid, e.n, "C18_OnlyCurrent" \o TombTag(CHOOSE x \in Y : ~isCur(x))>>})
+          \cup (IF \A x, y \in Y : (x.r.k = y.r.k /\ isCur(x) /\ isCur(y)) => x = y THEN {} ELSE {<<sid, e.n, "C18_Once">>})
   ELSE IF e.a = "ReadAll" THEN
-       {<<sid, e.n, (IF Colliding(k) THEN "C13_ReadAll" ELSE IF e.afteropen THEN "C02_ReadAll" ELSE "C01_ReadAll") \o KfTag(k)>> :
+       {<<sid, e.n, (IF Colliding(k) THEN "C13_ReadAll" ELSE IF e.aftergc THEN "C03_ReadAll" ELSE IF e.afteropen THEN "C02_ReadAll" ELSE "C01_ReadAll") \o KfTag(k)>> :
            k \in {k \in DOMAIN e.reads : ~ReadOK(e.reads[k], ref[k], LevelOf(k))}}
   ELSE {}
 
@@ -109,36 +139,36 @@ TrSet ==
   /\ IsEv("Set") /\ Quiet /\ Adv /\ sid' = sid
   /\ IF up
        THEN /\ W_Begin("c1", Ev.k, Ev.val, Ev.rev, Ev.flag, Ev.nblk, Ev.vh)
-            /\ Settle /\ obs' = [e |-> Ev, pre |-> ref[Ev.k]]
+            /\ Settle /\ obs' = [e |-> Ev, pre |-> ref[Ev.k], aux |-> NoAux]
        ELSE Stuck("set-while-down")
 
 TrGet ==
   /\ IsEv("Get") /\ Quiet /\ Adv /\ sid' = sid
   /\ IF up
-       THEN R_Begin("c1", Ev.k) /\ Settle /\ obs' = [e |-> Ev, pre |-> ref[Ev.k]]
+       THEN R_Begin("c1", Ev.k) /\ Settle /\ obs' = [e |-> Ev, pre |-> ref[Ev.k], aux |-> NoAux]
        ELSE Stuck("get-while-down")
 
 TrIncr ==
   /\ IsEv("Incr") /\ Quiet /\ Adv /\ sid' = sid
   /\ IF up
-       THEN I_Begin("c1", Ev.k, Ev.d, Ev.vh) /\ Settle /\ obs' = [e |-> Ev, pre |-> ref[Ev.k]]
+       THEN I_Begin("c1", Ev.k, Ev.d, Ev.vh) /\ Settle /\ obs' = [e |-> Ev, pre |-> ref[Ev.k], aux |-> NoAux]
        ELSE Stuck("incr-while-down")
 
 TrFlush ==
   /\ IsEv("Flush") /\ Quiet /\ Adv /\ sid' = sid
-  /\ IF up THEN F_Start("flusher") /\ Settle /\ obs' = [e |-> Ev, pre |-> NoRef]
+  /\ IF up THEN F_Start("flusher") /\ Settle /\ obs' = [e |-> Ev, pre |-> NoRef, aux |-> NoAux]
      ELSE Stuck("flush-while-down")
 
 TrRotFlush ==
   /\ IsEv("RotFlush") /\ Quiet /\ Adv /\ sid' = sid
   /\ IF up /\ Ev.ran /\ Ev.c \in Chunks /\ pc[RotName(Ev.c)] = "spawned"
-       THEN F_Enter(RotName(Ev.c)) /\ Settle /\ obs' = [e |-> Ev, pre |-> NoRef]
+       THEN F_Enter(RotName(Ev.c)) /\ Settle /\ obs' = [e |-> Ev, pre |-> NoRef, aux |-> NoAux]
        ELSE IF ~Ev.ran THEN Settle /\ obs' = NoObs /\ UNCHANGED vars
        ELSE Stuck("rotflush-not-spawned")
 
 TrClose ==
   /\ IsEv("Close") /\ Quiet /\ Adv /\ sid' = sid
-  /\ IF up THEN CL_Start /\ Settle /\ obs' = [e |-> Ev, pre |-> NoRef]
+  /\ IF up THEN CL_Start /\ Settle /\ obs' = [e |-> Ev, pre |-> NoRef, aux |-> NoAux]
      ELSE Stuck("close-while-down")
 
 \* index files deleted by the scenario before reopening: [kind, c, s]
@@ -165,12 +195,23 @@ TrOpen ==
                   ELSE ref[k]]
             /\ gh' = [gh EXCEPT !.treeOnly = {}]
             /\ UNCHANGED <<conf, gc, lock, pc, loc, recs>>
-            /\ Settle /\ obs' = [e |-> Ev, pre |-> NoRef]
+            /\ Settle /\ obs' = [e |-> Ev, pre |-> NoRef, aux |-> NoAux]
        ELSE Stuck("open-while-up")
+
+TrGC ==
+  /\ IsEv("GC") /\ Quiet /\ Adv /\ sid' = sid
+  /\ IF up
+       THEN /\ Settle /\ obs' = [e |-> Ev, pre |-> NoRef, aux |-> RangeOf(Ev.begin, Ev.end, LAMBDA n : IF ToString(n) \in DOMAIN Ev.old THEN Ev.old[ToString(n)] ELSE TRUE)]
+            /\ IF Ev.res = "ok" THEN G_Start(Ev.rb, Ev.re, Ev.merge) ELSE UNCHANGED vars
+       ELSE Stuck("gc-while-down")
+
+TrScan ==
+  /\ IsEv("Scan") /\ Quiet /\ Adv /\ sid' = sid
+  /\ Settle /\ obs' = [e |-> Ev, pre |-> NoRef, aux |-> NoAux] /\ UNCHANGED vars
 
 TrReadAll ==
   /\ IsEv("ReadAll") /\ Quiet /\ Adv /\ sid' = sid
-  /\ Settle /\ obs' = [e |-> Ev, pre |-> NoRef] /\ UNCHANGED vars
+  /\ Settle /\ obs' = [e |-> Ev, pre |-> NoRef, aux |-> NoAux] /\ UNCHANGED vars
 
 TrEnd ==
   /\ IsEv("End") /\ Quiet /\ Adv /\ sid' = sid
@@ -179,7 +220,7 @@ TrEnd ==
 \* an event this specification has no action for: skip it, note it
 TrOther ==
   /\ l <= Len(Trace) /\ Quiet /\ Adv /\ sid' = sid
-  /\ Trace[l].a \notin {"Reset", "Set", "Get", "Incr", "Flush", "RotFlush", "Close", "Open", "ReadAll", "End", "GC"}
+  /\ Trace[l].a \notin {"Reset", "Set", "Get", "Incr", "Flush", "RotFlush", "Close", "Open", "ReadAll", "End", "GC", "Scan"}
   /\ Stuck("unknown-event")
 
 Silent == ~Quiet /\ Continue /\ UNCHANGED tvars
@@ -189,7 +230,7 @@ TraceInit ==
   /\ Init([hashOf |-> [k \in Keys |-> CHOOSE h \in HashIds : TRUE], rank |-> [k \in Keys |-> 0], fileMax |-> 4,
            splitCap |-> 2, checkVHash |-> FALSE, dumpEager |-> FALSE, bodyMaxBlk |-> 1, mut |-> {}])
 
-TraceNext == TrReset \/ TrSet \/ TrGet \/ TrIncr \/ TrFlush \/ TrRotFlush \/ TrClose \/ TrOpen
+TraceNext == TrReset \/ TrSet \/ TrGet \/ TrIncr \/ TrFlush \/ TrRotFlush \/ TrClose \/ TrOpen \/ TrGC \/ TrScan
              \/ TrReadAll \/ TrEnd \/ TrOther \/ Silent
 
 TraceSpec == TraceInit /\ [][TraceNext]_<<vars, tvars>>
